@@ -8,6 +8,10 @@ import random
 import gen_seq
 import seqlib
 import vlib
+try:
+    import oracles as oracles_mod
+except Exception:
+    oracles_mod = None
 
 
 def load_corpus(patterns):
@@ -115,6 +119,7 @@ def run_seq_check(prop, tier, seed, profiles, oracle, n_quick, n_thorough, assum
                 "non-trivial when its implementation trace has a callback and an operation result; distinct by trace hash" % ncorpus,
         "model_impl_divergences": len(diverged),
         "op_result_histogram": dict(opcount.most_common(40)),
+        "oracle_rule_premises_met": dict(getattr(oracles_mod, "RULE_STATS", {})) if oracles_mod else {},
         "samples": [{"scenario": by_id[sid].split("\n")[:12], "impl_trace_head": res[sid][0][:12]} for sid in list(res.keys())[:2]],
     })
     # ---- verdicts
